@@ -240,10 +240,11 @@ CLAIMS["C16"] = claim("other",
     "FillRequest branch.",
     "DESIGN.md 0.3, 5 (C16)", "_run_run with buffer_output (function-local iterator class) is bounded only")
 CLAIMS["C17"] = claim("proof",
-    "Deductive proof: Slice.__init__ (14 typings: LenaValueError iff the step is an int <= 0; which run closure is installed), "
+    "Deductive proof: Slice.__init__ (14 typings: LenaValueError iff the step is an int <= 0; the progression fill_into walks; for "
+    "negative indices _start / _stop / _step and - for step 1 - that run delegates to _run_negative_islice), "
     "Slice.run for non-negative arguments (out[k] is xs[start + k*step] by identity, length as python's slice), "
     "Slice._run_negative_islice for all six sign branches (out == content(flow)[start:stop] elementwise by identity with python's "
-    "clamping; with step > 1 the installed closure is islice over it), Slice.fill_into (fills iff the running index is in "
+    "clamping; that run is bound to islice over it for a negative index with step > 1 is covered by the bounded part only), Slice.fill_into (fills iff the running index is in "
     "range(start, stop, step), LenaStopFill exactly when no later index is selected), Reverse.run (reversed, terminates), "
     "Chain (concatenation by identity), CountFrom (start + k*step, never ends, TypeError conditions), RunningChunkBy.run (k-th "
     "result = container of xs[k:k+size], max(0, n - size + 1) results; tuple and abstract containers). Bounded part (labelled): "
